@@ -48,7 +48,6 @@ def known_class(tn, proc, lane='builtin'):
     if D.PRIM.get(root) == 'decimal' and re.match(r'[+-]?\.\Z', proc): return 'C09-decimal-lone-point'
     if root in ('float', 'double') and re.match(r'[+-]?\.(?:[eE][+-]?[0-9]+)?\Z', proc): return 'C09-decimal-lone-point'
     if D.PRIM.get(root) == 'decimal' and root != 'decimal' and re.match(r'[+-]?[0-9]*\.[0-9]*\Z', proc) and not D.RE_DECIMAL.match(proc) : return 'C09-decimal-lone-point'
-    if root == 'hexBinary' and any(ord(c) >= 0xFF for c in proc): return 'C09-hexbin-decode-oob'
     if lane == 'builtin' and root == 'dateTime' and re.search(r'T24:00:00(\.0+)?(Z|[+-][0-9:]*)?\Z', proc): return 'C09-datetime-hour24-canonical'
     return None
 
